@@ -1,0 +1,13 @@
+//go:build verif
+// +build verif
+
+package threadlocal
+
+// VerifLiveTables returns the number of goroutine-local tables that are currently allocated
+// (verification hook, only compiled with the build tag `verif`; read-only).
+func VerifLiveTables() int {
+	tlsLock.RLock()
+	n := len(tls)
+	tlsLock.RUnlock()
+	return n
+}
